@@ -65,10 +65,21 @@ def run(ctx):
         forest.close()
 
 
+def long_tree(rng):
+    """a directory whose name contains a newline, above several levels of long names: one record is then much longer than the standard
+    output buffer, with the newline early in it"""
+    leaf = ("d", {b" ": ("f", 0), b"z" * 200: ("f", 0)})
+    for k in range(rng.choice([4, 5, 6])):
+        leaf = ("d", {bytes([97 + k]) * rng.choice([250, 255, 180]): leaf, b"f%d" % k: ("f", 0)})
+    return ("d", {b"-a b\n'c\" {} *": leaf, b"plain": ("f", 0)})
+
+
 def pipeline(ctx, forest, cases):
     rng = ctx.rng
     n = 40 if ctx.thorough else 8
     bad = []
+    forest.add(b"longrec", long_tree(rng))
+    cases = [(b"longrec", forest.trees[b"longrec"], b"longrec", 0), (b"longrec", forest.trees[b"longrec"], b"./longrec/", 0)] + list(cases)
     for idx, (nm, spec, root, d) in enumerate(cases[:n]):
         rec = os.path.join(forest.dir, b"rec%d" % idx)
         env = dict(xc.ENV, FUV_RECORD=rec.decode())
